@@ -24,8 +24,10 @@ LEVEL_TEXT = (
     "sigma+delta and b the exact solution for the residual source the code builds: "
     "misfit(sigma+delta) - misfit(sigma) = <gradient, delta> + remainder, every term of the remainder "
     "containing (e'-e) with delta or (e'-e) twice (the exact form of 'second order'); NaN data contribute "
-    "neither to misfit nor to the adjoint source; the GENERATED interp_edges_to_vol_averages is, per cell "
-    "and for all shapes, the transpose of the four-cell edge average of core.amat_x; anisotropy "
+    "neither to misfit nor to the adjoint source; the GENERATED interp_edges_to_vol_averages is, for all "
+    "shapes >= 1 and all arrays, GLOBALLY the exact transpose of the four-cell (clamped, factor 1/4) edge "
+    "average: sum_cells AvT(e).c = sum_edges e.edge_avg(vol c), and that edge average is Me_x/Me_y/Me_z of "
+    "Model/FIT.v (core.amat_x, C02) on every edge the kernel visits; anisotropy "
     "collection is the transpose of the aliasing for the four cases (shape 1/2/2/3); the mapped "
     "gradient is the sigma-gradient times d sigma/dm (derivative proved over R for the six maps).")
 LEVEL_NOTE = (
@@ -36,7 +38,9 @@ LEVEL_NOTE = (
     "(which arrays are multiplied, conj, weights, smu0 factors, collection order, chain factor, "
     "squeeze) is a hand model tied by correspondence at 1e-9 relative on real simulations; rounding "
     "is not modelled. Laplace domain: Simulation.gradient raises (recorded); the property "
-    "quantifies over frequencies.")
+    "quantifies over frequencies. The global transpose identity of the volume averaging is proved for "
+    "the generated kernel (no gap left there); the instantiation of the abstract index-list section "
+    "(Av_T over lists) with the Z-box sums of that identity is by inspection, not a Coq term.")
 TECHNIQUE = ("Coq proof (abstract linear algebra with finite sums, ring/field; loop-invariant proof of a "
              "kernel translated from source) + differential correspondence with recorded solver oracles "
              "(vm_compute on exact rationals)")
